@@ -320,6 +320,11 @@ def run_cell(model, lik, desc, test_x, test_noise, cell, P, skip_noisy=False, re
         cov = p.covariance_matrix
         var = p.variance
         obs["out_batch"] = tuple(p.batch_shape)
+        try:
+            import gpytorch
+            obs["min_var"] = float(gpytorch.settings.min_variance.value(var.dtype))
+        except Exception:
+            obs["min_var"] = None
         fl = lambda a, tail: _np(a.detach().reshape(*a.shape[:a.dim() - tail], -1) if tail == 0 else a.detach())
         B = P["B"]
 
@@ -873,9 +878,9 @@ def correspondence(ctx, extra=False):
     torch.set_num_threads(2)
     thorough = ctx.tier == "thorough" or extra
     n_single, n_multi, ncell = (60, 12, 10) if not thorough else (220, 32, 64)
-    n_ext, ncell_ext = (len(X.EXT_ALWAYS) + 7, 5) if not thorough else (3 * len(X.EXT_KERNEL_KINDS), 64)
+    n_ext, ncell_ext = (len(X.EXT_ALWAYS) + 7, 5) if not thorough else (2 * len(X.EXT_KERNEL_KINDS), 32)
     workers = 4 if not thorough else 10
-    n_nd = 6 if not thorough else 30
+    n_nd = 6 if not thorough else 20
     if os.environ.get("VERIF_C01_CASES"):
         n_single, n_multi, n_ext, n_nd = ([int(v) for v in os.environ["VERIF_C01_CASES"].split(",")] + [0, 0])[:4]
     c12 = _c12_calltime_noise_defect()
@@ -907,7 +912,7 @@ def correspondence(ctx, extra=False):
             continue
         crng = ctx.rng(f"cells:{kind}:{idx}")
         ext = kind == "single" and idx >= 1000      # wave-3 zoo (active_dims / structured kernels, n-d data batches)
-        cells = G.all_cells() if ncell >= 64 else G.covering_cells(crng, ncell_ext if ext else ncell)
+        cells = G.covering_cells(crng, ncell_ext) if ext else G.all_cells() if ncell >= 64 else G.covering_cells(crng, ncell)
         skip_noisy = c12 and desc["lik"] == "fixed+learned"
         runs = []
         snap = X.snapshot(model)
@@ -931,18 +936,19 @@ def correspondence(ctx, extra=False):
         # ---- wave 3 scenarios, each on a FRESH build of this case (so that a replay is exact): repeated predictions on
         #      one object; copy histories; the models returned by get_fantasy_model
         #      quick: repeat on every model, copy / fantasy on alternating models (one op / one cell each);
-        #      thorough: every copy op and six fantasy cells per model, each also judged under a second cell
+        #      thorough: every copy op (one of them also judged under a second cell) and two fantasy cells per model
         other = lambda c1: crng.choice([c for c in G.all_cells() if c["cg"] == c1["cg"] and c != c1])
         scen = [{"type": "repeat", "cell": crng.choice(G.all_cells())}]
         if thorough or n_scen % 2 == 0:
             copy_ops = list(X.COPY_OPS) if thorough else [X.COPY_OPS[(n_scen // 2) % len(X.COPY_OPS)]]
             for k, op in enumerate(copy_ops):
                 c1 = cell_cycle[(3 * n_scen + k) % 64]
-                scen.append({"type": "copy", "op": op, "cell": c1, "cell2": other(c1) if thorough else None})
+                scen.append({"type": "copy", "op": op, "cell": c1,
+                             "cell2": other(c1) if thorough and k == n_scen % len(X.COPY_OPS) else None})
         if thorough or n_scen % 2 == 1:
-            for k in range(1 if not thorough else 6):
+            for k in range(1 if not thorough else 2):
                 c1 = cell_cycle[(5 * n_scen + 11 * k + 1) % 64]
-                scen.append({"type": "fantasy", "cell": c1, "cell2": other(c1), "source": thorough})
+                scen.append({"type": "fantasy", "cell": c1, "cell2": other(c1), "source": thorough and k == 0})
         n_scen += 1
         for sc in scen:
             try:
@@ -1238,8 +1244,13 @@ def _compare(ctx, cs, b, R, cell, obs, pending):
             check(f"gen:posterior-covar:{kind}:{path}", "covariance vs GENERATED exact_prediction", obs["cov"][b], gen[1],
                   tol_cov, prim_cov, tie=True)
         check(f"posterior-variance:{kind}:{path}", "model(x*).variance", obs["var"][b], np.diag(R.cov), tol_cov, prim_cov)
+        # (MultivariateNormal.variance is documented to clamp at settings.min_variance: a diagonal entry below it — only
+        #  seen when an iterative primitive returned an inaccurate root — is reported as the floor)
+        dg = np.diag(obs["cov"][b])
+        mv = obs.get("min_var")
         check(f"posterior-variance-vs-diag:{kind}:{path}", "model(x*).variance vs diag(model(x*).covariance_matrix)",
-              obs["var"][b], np.diag(obs["cov"][b]), 64 * EPS * R.sc_cov + R.dK * (1 + R.W) ** 2 + 1e-13)
+              obs["var"][b], dg if mv is None else np.where(dg < mv, mv, dg),
+              64 * EPS * R.sc_cov + R.dK * (1 + R.W) ** 2 + 1e-13)
         check(f"posterior-covar-symmetry:{kind}:{path}", "covariance symmetric", obs["cov"][b], obs["cov"][b].T,
               tol_cov, prim_cov)
     # ---- likelihood: adds exactly the observation noise, once, and leaves the mean alone
